@@ -12,7 +12,7 @@ RULE = ('every productive grammar of the BNF/EBNF families (single-character nam
         'UnexpectedInput subclass (CYK: ParseError) raised at the first token/character after the longest viable prefix '
         '(prefix-viability fix-point over the CFG; reference LALR automaton for grammars with conflicts), UnexpectedEOF / '
         '$END with the last token\'s coordinates when the whole input is viable, and the continuation sets must hold in the '
-        'stated directions. Non-trivial = rejected input with at least one token before the error; distinct by construction')
+        'stated directions; plus a bracket-and-indentation grammar behind the Indenter post-lexer (every text of <= 3 lines): UnexpectedInput at the first non-viable token of the reference token stream, or the post-lexer\'s documented DedentError. Non-trivial = rejected input with at least one token before the error; distinct by construction')
 ASSUMPTIONS = ['prefix viability computed by refsem.Viable (productive grammars only; others skipped)',
                'terminals of the family are single characters, so tokens = characters and tokenisation is unique',
                'LALR: viability is relative to the shift-preferring reference automaton (reflalr) when the grammar has conflicts']
@@ -228,5 +228,188 @@ def check1(g, gi, boxname, b, inputs, res, only=None, starts=None, start=None):
                                        'next_terminals_reference': sorted(nt) if nt is not None else None})
 
 
+# --------------------------------------------------------------------------------------------------- post-lexer (Indenter) box
+
+IND_G = ('start: _NL* stmt*\nstmt: atom+ _NL [_INDENT stmt+ _DEDENT]\natom: NAME | LPAR atom* RPAR\nNAME: "a"\nLPAR: "("\nRPAR: ")"\n'
+         '_NL: /(\\r?\\n[\\t ]*)+/\n%ignore " "\n%declare _INDENT _DEDENT\n')
+IND_INDENTS = ('', ' ', '  ')
+IND_BODIES = ('a', '(a', 'a)', ')', '(', 'a a', '')
+IND_ENGINES = (('lalr', 'contextual'), ('lalr', 'basic'), ('earley', 'basic'))
+
+
+def ind_grammar():
+    from ..gram import Rule, Grammar
+    T = lambda n: ('tok', n)
+    R = lambda n: ('ref', n)
+    rules = [Rule('start', '', None, ((( ('star', T('_NL')), ('star', R('stmt'))), None),)),
+             Rule('stmt', '', None, (((('plus', R('atom')), T('_NL'), ('opt', ('group', ((T('_INDENT'), ('plus', R('stmt')), T('_DEDENT')),)))), None),)),
+             Rule('atom', '', None, (((T('NAME'),), None), ((T('LPAR'), ('star', R('atom')), T('RPAR')), None)))]
+    terms = [Term(n, (('str', n, ''),)) for n in ('NAME', 'LPAR', 'RPAR', '_NL', '_INDENT', '_DEDENT')]
+    return Grammar(rules, terms)
+
+
+def ind_reference_stream(text):
+    """Token-level reading of the documented Indenter on `text`: [(type, start_pos)...] followed by ('DedentError',) where
+    the post-lexer gives up.  A newline token is passed on (outside brackets) *before* its indentation is judged."""
+    import re
+    out, stack, depth, pos = [], [0], 0, 0
+    nl = re.compile(r'(\r?\n[\t ]*)+')
+    while pos < len(text):
+        c = text[pos]
+        if c == ' ':
+            pos += 1
+            continue
+        if c == '\n':
+            m = nl.match(text, pos)
+            if depth == 0:
+                out.append(('_NL', pos))
+                col = len(m.group(0).rsplit('\n', 1)[1])
+                if col > stack[-1]:
+                    stack.append(col)
+                    out.append(('_INDENT', pos))
+                else:
+                    while col < stack[-1]:
+                        stack.pop()
+                        out.append(('_DEDENT', pos))
+                    if col != stack[-1]:
+                        out.append(('DedentError',))
+                        return out
+            pos = m.end()
+            continue
+        out.append(({'a': 'NAME', '(': 'LPAR', ')': 'RPAR'}[c], pos))
+        depth += (c == '(') - (c == ')')
+        pos += 1
+    while len(stack) > 1:
+        stack.pop()
+        out.append(('_DEDENT', None))     # fabricated at the end of the stream: which token lends its position is not stated
+    return out
+
+
+def ind_texts(nlines):
+    import itertools
+    lines = [i + b for i in IND_INDENTS for b in IND_BODIES]
+    for n in range(1, nlines + 1):
+        for ls in itertools.product(lines, repeat=n):
+            for fin in ('', '\n'):
+                yield '\n'.join(ls) + fin
+
+
+class _Ind:
+    g = None
+    parsers = None
+
+    @classmethod
+    def setup(cls):
+        if cls.g is None:
+            from lark import Lark
+            from lark.indenter import Indenter
+
+            class I(Indenter):
+                NL_type = '_NL'
+                OPEN_PAREN_types = ['LPAR']
+                CLOSE_PAREN_types = ['RPAR']
+                INDENT_type = '_INDENT'
+                DEDENT_type = '_DEDENT'
+                tab_len = 8
+            cls.g = ind_grammar()
+            cls.parsers = {(pa, lx): Lark(IND_G, parser=pa, lexer=lx, postlex=I()) for pa, lx in IND_ENGINES}
+
+
+def work_indent(item, only=None):
+    """Rejections through a stateful post-lexer: the error must still be an UnexpectedInput at the first token that cannot
+    extend the viable token prefix -- or the post-lexer's own documented DedentError where the reference stream has it."""
+    import itertools
+    from lark.indenter import DedentError
+    from ..famrun import new_res
+    res = new_res()
+    _, nlines, lo, hi = item
+    _Ind.setup()
+    g = _Ind.g
+    texts = [only['input']] if only else itertools.islice(ind_texts(nlines), lo, hi)
+    for w in texts:
+        stream = ind_reference_stream(w)
+        # the longest viable prefix of the reference stream
+        toks, want = [], None
+        for ev in stream:
+            if ev[0] == 'DedentError':
+                want = ('DedentError', None, None)
+                break
+            if not refsem.viable_tokens(g, [('tok', t) for t, _ in toks] + [('tok', ev[0])]):
+                want = ('UnexpectedToken', ev[0], ev[1])
+                break
+            toks.append(ev)
+        if want is None:
+            E = refsem.Edges.tokens(g, [('tok', t) for t, _ in toks])
+            want = ('accept', None, None) if refsem.Chart(g, E).accepts() else ('UnexpectedToken', '$END', None)
+        for (parser, lexer), p in _Ind.parsers.items():
+            if only and (only['parser'], only['lexer']) != (parser, lexer):
+                continue
+            pr = larkio.parse(p, w)
+            res['evals'] += 1
+            case = {'box': 'indenter', 'item': list(item), 'grammar': IND_G, 'parser': parser, 'lexer': lexer, 'input': w}
+
+            def bad(kind, cause, exp, got):
+                res['viol'].append({'kind': kind, 'cause': cause, 'case': case, 'expected': exp, 'observed': got})
+            if pr[0] == 'hang':
+                bad('hang', 'hang', 'terminates', 'watchdog')
+                continue
+            if pr[0] == 'ok':
+                if want[0] != 'accept':
+                    bad('accepted-non-sentence', 'language', list(want), 'a tree')
+                continue
+            e = pr[1]
+            if want[0] == 'accept':
+                bad('rejected-sentence', 'language', 'a tree', repr(e)[:200])
+                continue
+            res['nontrivial'] += 1 if toks else 0
+            cls = type(e).__name__
+            if want[0] == 'DedentError':
+                if not isinstance(e, DedentError):
+                    bad('error-class', 'error-class', 'DedentError (the documented post-lexer error)', repr(e)[:200])
+                continue
+            if not isinstance(e, UnexpectedInput):
+                bad('error-class', 'error-class', 'UnexpectedInput subclass', '%s: %s' % (cls, str(e)[:150]))
+                continue
+            if want[1] == '$END':
+                ok = cls == 'UnexpectedEOF' or (cls == 'UnexpectedToken' and e.token.type == '$END')
+                if not ok:
+                    bad('position', 'position', 'UnexpectedEOF / unexpected $END', obs.exc(e))
+                continue
+            tok = getattr(e, 'token', None)
+            got = (cls, getattr(tok, 'type', None), getattr(tok, 'start_pos', None) if want[2] is not None else None)
+            if got != want:
+                bad('position', 'position', list(want), list(got))
+            elif len(res['samples']) < 2 and len(toks) >= 3:
+                res['samples'].append({'grammar': 'indenter box', 'engine': parser + '/' + lexer, 'input': w, 'error': list(got)})
+    res['counters'] = dict(res['counters'])
+    return res
+
+
+IND_TIERS = {'quick': 3, 'thorough': 4}
+IND_CHUNK = 1500
+
 _run = FamRun(box, TIERS, check, chunk=48)
-plan, bounds, work, replay = _run.plan, _run.bounds, _run.work, _run.replay
+
+
+def plan(tier, seed):
+    n = IND_TIERS[tier]
+    total = sum(2 * (len(IND_INDENTS) * len(IND_BODIES)) ** k for k in range(1, n + 1))
+    return [('fam',) + tuple(it) for it in _run.plan(tier, seed)] + [('indent', n, lo, min(total, lo + IND_CHUNK)) for lo in range(0, total, IND_CHUNK)]
+
+
+def bounds(tier, seed):
+    return {'families': _run.bounds(tier, seed),
+            'indenter_box': {'grammar': IND_G, 'lines': '<= %d, each one of %d indentations x %d bodies, with and without a final newline' % (IND_TIERS[tier], len(IND_INDENTS), len(IND_BODIES)),
+                             'engines': IND_ENGINES}}
+
+
+def work(item):
+    if item[0] == 'indent':
+        return work_indent(item)
+    return _run.work(item[1:])
+
+
+def replay(case):
+    if case.get('box') == 'indenter':
+        return work_indent(tuple(case['item']), only=case)['viol']
+    return _run.replay(case)
